@@ -120,7 +120,7 @@ def r1(ctx):
              "get_connection() is retried; exhausted attempts invalidate the fairy before raising")
 def r2(ctx):
     f = _nf(ctx, f"{POOL}::_ConnectionFairy._checkout", "_checkin_failed", "get_connection", "invalidate", "_invalidate",
-            "checkout", alias=None)
+            "checkout")
     g = rcfg(ctx, f, strict_exc=True)
     view = g.fn
     handlers = [n for n in ast.walk(view) if isinstance(n, ast.ExceptHandler)]
@@ -129,7 +129,8 @@ def r2(ctx):
     raises = [n for n in g.nodes if n.kind == "stmt" and isinstance(n.stmt, ast.Raise)]
     # (a) re-raising arms
     rec_names = {n for n, v, _ in name_stores(f.node) if v is not None and (dotted(v) or "").endswith("._connection_record")}
-    detached = test_edges(g, lambda t, p: p is True and t.endswith(" is None") and t[:-8] in rec_names)
+    detached = test_edges(g, lambda t, p: p is True and t.endswith(" is None")
+                          and (t[:-8] in rec_names or t[:-8].endswith("._connection_record")))
     n_arms = 0
     for h in handlers:
         mine = [r.id for r in raises if _handler_of(None, r.stmt, handlers) is h]
@@ -417,8 +418,18 @@ def r7(ctx):
     g = rcfg(ctx, fc)
     creator = calls_ending(g, "_invoke_creator")
     ctx.require(creator, "no _invoke_creator() call in __connect")
-    stamps = [n for d, t, st in attr_stores(fc.node) if d == "self.starttime" and _clock_calls(st)
-              for n in g.nodes_for(st)]
+    # the stamp is taken where the clock is READ: `self.starttime = time.time()`, or `now = time.time()` for
+    # `self.starttime = now` (the store of a value read earlier is as old as the read)
+    stamps = []
+    for d, t, st in attr_stores(fc.node):
+        if d != "self.starttime":
+            continue
+        if _clock_calls(st):
+            stamps += g.nodes_for(st)
+        elif isinstance(getattr(st, "value", None), ast.Name):
+            defs = [s2 for nm, v, s2 in name_stores(fc.node) if nm == st.value.id]
+            if len(defs) == 1 and _clock_calls(defs[0]):
+                stamps += g.nodes_for(defs[0])
     ctx.require(stamps, "__connect does not read a clock into self.starttime")
     w = None
     for n in creator:
@@ -439,6 +450,13 @@ def r7(ctx):
     clocks = {}
     for owner, d, st, m in sites + attr_store_sites(ix, "_invalidate_time") + attr_store_sites(ix, "_soft_invalidate_time"):
         cs = _clock_calls(st)
+        if not cs and isinstance(getattr(st, "value", None), ast.Name):
+            fn_ = m.parents().get(st)
+            while fn_ is not None and not isinstance(fn_, (ast.FunctionDef, ast.AsyncFunctionDef)):
+                fn_ = m.parents().get(fn_)
+            defs = [s2 for nm, v, s2 in name_stores(fn_) if nm == st.value.id] if fn_ is not None else []
+            if len(defs) == 1:
+                cs = _clock_calls(defs[0])
         if cs:
             clocks.setdefault(frozenset(cs), []).append(f"{owner} ({d})")
     fget = ctx.func(f"{POOL}::_ConnectionRecord.get_connection")
@@ -544,3 +562,61 @@ R.mutant("starttime-from-monotonic-clock", POOL,
 R.mutant("benign-connect-stamp-before-try", POOL,
          sub("        self.dbapi_connection = None\n        try:\n            self.starttime = time.time()\n",
              "        self.dbapi_connection = None\n        self.starttime = now = time.time()\n        try:\n            pool.logger.debug(\"connecting at %s\", now)\n"), None)
+
+# ---------------------------------------------------------------------- rob-A: behaviour-preserving refactorings
+# (family of the stored benign/rfA_10 + variants; the rules analyse the normal form, see _helpers_rob_a)
+R.mutant("benign-rob-get-connection-pool-alias-flag-renamed", POOL,
+         chain(sub("    def get_connection(self) -> DBAPIConnection:\n        recycle = False\n", "    def get_connection(self) -> DBAPIConnection:\n        pool = self.__pool\n        needs_recycle = False\n"),
+               sub("            self.__pool._recycle > -1\n            and time.time() - self.starttime > self.__pool._recycle\n",
+                   "            pool._recycle > -1\n            and time.time() - self.starttime > pool._recycle\n"),
+               sub("        elif self.__pool._invalidate_time > self.starttime:\n            self.__pool.logger.info(\n                \"Connection %r invalidated due to pool",
+                   "        elif pool._invalidate_time > self.starttime:\n            pool.logger.info(\n                \"Connection %r invalidated due to pool"),
+               sub("            recycle = True\n", "            needs_recycle = True\n", count=3),
+               sub("        if recycle:\n", "        if needs_recycle:\n")), None)
+R.mutant("benign-rob-get-connection-reconnect-helper", POOL,
+         chain(sub("        if recycle:\n            self.__close(terminate=True)\n            self.info.clear()\n\n            self.__connect()\n",
+                   "        if recycle:\n            self._replace_connection()\n"),
+               sub("    def get_connection(self) -> DBAPIConnection:\n",
+                   "    def _replace_connection(self) -> None:\n        self.__close(terminate=True)\n        self.info.clear()\n        self.__connect()\n\n"
+                   "    def get_connection(self) -> DBAPIConnection:\n")), None)
+R.mutant("rob-get-connection-reconnect-helper-does-not-close", POOL,
+         chain(sub("        if recycle:\n            self.__close(terminate=True)\n            self.info.clear()\n\n            self.__connect()\n",
+                   "        if recycle:\n            self._replace_connection()\n"),
+               sub("    def get_connection(self) -> DBAPIConnection:\n",
+                   "    def _replace_connection(self) -> None:\n        self.info.clear()\n        self.__connect()\n\n"
+                   "    def get_connection(self) -> DBAPIConnection:\n")), "C26-R3")
+R.mutant("benign-rob-is-invalidated-early-returns", POOL,
+         sub("        return (\n            self.dbapi_connection is None\n            or self.__pool._invalidate_time > self.starttime\n            or (self._soft_invalidate_time > self.starttime)\n        )\n",
+             "        pool = self.__pool\n        return (\n            self.dbapi_connection is None\n            or pool._invalidate_time > self.starttime\n            or self._soft_invalidate_time > self.starttime\n        )\n"), None)
+R.mutant("benign-rob-invalidate-soft-early-return", POOL,
+         sub("        if soft:\n            self._soft_invalidate_time = time.time()\n        else:\n            self.__close(terminate=True)\n            self.dbapi_connection = None\n",
+             "        if soft:\n            self._soft_invalidate_time = time.time()\n            return\n        self.__close(terminate=True)\n        self.dbapi_connection = None\n"), None)
+R.mutant("benign-rob-checkout-handler-plain-reraise", POOL,
+         sub("        except BaseException as err:\n            with util.safe_reraise():\n                rec._checkin_failed(err, _fairy_was_created=False)\n\n            # not reached, for code linters only\n            raise\n",
+             "        except BaseException as err:\n            rec._checkin_failed(err, _fairy_was_created=False)\n            raise\n"), None)
+R.mutant("benign-rob-checkin-failed-through-helper", POOL,
+         chain(sub("                rec._checkin_failed(err, _fairy_was_created=False)\n", "                cls._give_back(rec, err)\n"),
+               sub("    @classmethod\n    def checkout(cls, pool: Pool) -> _ConnectionFairy:\n",
+                   "    @staticmethod\n    def _give_back(record: _ConnectionRecord, error: BaseException) -> None:\n"
+                   "        record._checkin_failed(error, _fairy_was_created=False)\n\n"
+                   "    @classmethod\n    def checkout(cls, pool: Pool) -> _ConnectionFairy:\n")), None)
+R.mutant("benign-rob-fairy-checkout-record-alias", POOL,
+         sub("                    fairy._connection_record.invalidate(e)\n                    pool._invalidate(fairy, e, _checkin=False)\n",
+             "                    record = fairy._connection_record\n                    record.invalidate(e)\n                    pool._invalidate(fairy, e, _checkin=False)\n"), None)
+R.mutant("benign-rob-close-connection-inverted-test", POOL,
+         sub("            if not isinstance(e, Exception):\n                raise\n\n    def _create_connection",
+             "            if isinstance(e, Exception):\n                pass\n            else:\n                raise\n\n    def _create_connection"), None)
+R.mutant("benign-rob-connect-stamp-helper", POOL,
+         chain(sub("            self.starttime = time.time()\n            self.dbapi_connection = connection = pool._invoke_creator(self)\n",
+                   "            self._stamp()\n            self.dbapi_connection = connection = pool._invoke_creator(self)\n"),
+               sub("    def __connect(self) -> None:\n", "    def _stamp(self) -> None:\n        self.starttime = time.time()\n\n    def __connect(self) -> None:\n")), None)
+R.mutant("rob-stamp-helper-called-from-checkin", POOL,
+         chain(sub("            self.starttime = time.time()\n            self.dbapi_connection = connection = pool._invoke_creator(self)\n",
+                   "            self._stamp()\n            self.dbapi_connection = connection = pool._invoke_creator(self)\n"),
+               sub("    def __connect(self) -> None:\n", "    def _stamp(self) -> None:\n        self.starttime = time.time()\n\n    def __connect(self) -> None:\n"),
+               sub("        self.fairy_ref = None\n        connection = self.dbapi_connection\n", "        self.fairy_ref = None\n        self._stamp()\n        connection = self.dbapi_connection\n")), "C26-R7")
+R.mutant("benign-rob-connect-stamp-through-local", POOL,
+         sub(_STAMP, "            now = time.time()\n            self.starttime = now\n            pool.logger.debug(\"connecting at %s\", now)\n"
+                     "            self.dbapi_connection = connection = pool._invoke_creator(self)\n"), None)
+R.mutant("rob-connect-stamp-local-read-after-creator", POOL,
+         sub(_STAMP, "            self.dbapi_connection = connection = pool._invoke_creator(self)\n            now = time.time()\n            self.starttime = now\n"), "C26-R7")
